@@ -8,7 +8,7 @@ stores are resolved by the engine as if-then-else chains, so the solver never se
 """
 import z3
 from .core import (ctx, SNum, SBool, SCplx, lift, conc, Undecided, PathRaise, ite, land, lor, implies, forall, Q,
-                   fresh_int, fresh_real, is_sym, to_bool_term, lnot)
+                   fresh_int, fresh_real, is_sym, to_bool_term, lnot, ite_pc)
 
 __all__ = ["SArr", "sym_array", "slen", "as_index"]
 
@@ -36,9 +36,22 @@ def _key(t):
     return z3.simplify(t).sexpr() if z3.is_expr(t) else str(t)
 
 
+_SORT = {"real": z3.RealSort, "int": z3.IntSort, "bool": z3.BoolSort}
+
+
 def _cell(name, idx, dtype):
     c = ctx()
     terms = tuple(lift(i).t for i in idx)
+    if getattr(c, "array_mode", "cells") == "uf":
+        # uninterpreted-function representation (linear index reasoning with native quantifiers)
+        dom = [z3.IntSort()] * len(terms)
+        if dtype == "cplx":
+            fr = z3.Function(name + ".re", *(dom + [z3.RealSort()]))
+            fi = z3.Function(name + ".im", *(dom + [z3.RealSort()]))
+            return SCplx(SNum(fr(*terms), "real"), SNum(fi(*terms), "real"))
+        f = z3.Function(name, *(dom + [_SORT[dtype]()]))
+        v = f(*terms)
+        return SBool(v) if dtype == "bool" else SNum(v, dtype)
     key = (name,) + tuple(_key(t) for t in terms)
     if key not in c.cells:
         nm = "%s[%s]" % (name, ",".join(k.replace(" ", "_") for k in key[1:]))
@@ -145,9 +158,9 @@ class SArr:
                 return min(max(v, 0), cn)
             v = lift(v)
             nn = lift(n)
-            v = ite(v < 0, v + nn, v)
-            v = ite(v < 0, 0, v)
-            return ite(v > nn, nn, v)
+            v = ite_pc(v < 0, v + nn, v)
+            v = ite_pc(v < 0, 0, v)
+            return ite_pc(v > nn, nn, v)
         lo = clamp(s.start, 0)
         hi = clamp(s.stop, n)
         clo, chi = conc(lo), conc(hi)
@@ -155,7 +168,7 @@ class SArr:
             ln = max(0, -(-(chi - clo) // step))
         else:
             d = lift(hi) - lift(lo)
-            d = ite(d < 0, 0, d)
+            d = ite_pc(d < 0, 0, d)
             ln = d if step == 1 else (d + (step - 1)) // step
         return (lo, step, ln)
 
